@@ -741,12 +741,18 @@ def run(ctx):
     t1 = time.time()
     # ---- stage 2: every output language on the cases whose first stage returned
     stage2 = []
+    dense_no = {}
     for c in cases:
         if c["route"] == "whole":
             continue
         if res[c["cid"] + "|none"]["outcome"] != "files":
             continue
-        for lang in langs_for(c):
+        for li, lang in enumerate(langs_for(c)):
+            # quick: the dense families (complete in every tier) take every other output language per case, alternating
+            # from case to case and with the seed, so that each language still sees half of every dense family; thorough
+            # runs every language on every case
+            if quick and c["fam"] in DENSE and (dense_no.setdefault(c["cid"], len(dense_no)) + li + ctx.seed) % 2:
+                continue
             stage2.append({"id": "%s|%s" % (c["cid"], lang), "yaml": uni.yaml_for(c, lang)})
             if not quick:
                 stage2.append({"id": "%s|%s-alt" % (c["cid"], lang), "yaml": uni.yaml_for(c, lang, alt=True)})
@@ -980,7 +986,7 @@ ASSUMPTIONS = [
     "structural universe: spec/MalformedMC.tla - every object member / array element of the well-formed base documents (JSON Schema draft-07, "
     "OpenAPI 3.0, pipeline YAML, one file per schema transformation, one file per builder / option rule) removed, or replaced by every value of "
     "the family's alphabet (other JSON kinds; empty, negative, dangling, cyclic, tuple-form and wrong-keyword spellings); the reference-cycle "
-    "documents as they stand; for CUE an alphabet of expressions at every structural position; quick runs a seeded 1/12 slice",
+    "documents as they stand; for CUE an alphabet of expressions at every structural position; quick runs a seeded 1/12 slice (dense families complete, but under every other output language per case)",
     "hand-written types (family handtypes, complete in every tier): 27 fillers (a kind without its definition for each of the ten kinds, another "
     "kind's definition, unknown / missing kind, definitions with missing or empty members, non-mappings, two well-formed controls) at every position "
     "of a type tree (the type, array value, map INDEX, map value, struct field, disjunction branch, intersection branch), one level deep through "
